@@ -94,9 +94,13 @@ pub fn judge(c: &Case, st: &mut Stats) -> Verdict {
     let h = &c.header;
     // one-shot
     let one = imp::auto(h);
+    // "its header bytes": the candidate is a complete header on the wire (v1: the line through its CRLF, v2: 16 + the
+    // declared length) when the reference says so; an implementation that accepts it but reports fewer header bytes
+    // still owes "incomplete" for every proper prefix of the wire header (else a receiver stops early)
+    let wire_complete = matches!(v1_ref(h), V1Ref::Accept { len, .. } if len == h.len()) || matches!(v2_ref(h), V2Ref::Accept { len, .. } if len == h.len());
     let (is_v1, accepted) = match &one {
-        Ok(HeaderResult::V1(Ok(x))) => (true, x.header.len() == h.len()),
-        Ok(HeaderResult::V2(Ok(x))) => (false, x.header.len() == h.len()),
+        Ok(HeaderResult::V1(Ok(x))) => (true, x.header.len() == h.len() || wire_complete),
+        Ok(HeaderResult::V2(Ok(x))) => (false, x.header.len() == h.len() || wire_complete),
         _ => (false, false),
     };
     if !accepted {
